@@ -62,6 +62,12 @@ package cache
 //@ func (*cacheHandler).put
 //@   props C15
 //@   requires [wired] h != nil && r != nil && mdOf(r) != nil
+// a tearing-down resource entering the cache releases the waiter of its ID: the channel is closed
+// and unregistered (the contexts bound to it are cancelled by their goroutines)
+//@   ensures [waiter-released-on-teardown] mdOf(r).phase == 1 && acq(in(mdOf(r).id, h.teardownWaiters)) ==>
+//@     closed(acq(h.teardownWaiters[mdOf(r).id])) && !in(mdOf(r).id, h.teardownWaiters)
+//@   ensures [waiter-kept-while-running] mdOf(r).phase != 1 && acq(in(mdOf(r).id, h.teardownWaiters)) ==>
+//@     in(mdOf(r).id, h.teardownWaiters) && h.teardownWaiters[mdOf(r).id] == acq(h.teardownWaiters[mdOf(r).id])
 //@   at BinarySearchFunc #1
 //@     assume_result [binary-search] searchResult(h.resources, mdOf(r).id, result0, result1)
 //@ func (*cacheHandler).put$1
@@ -71,6 +77,9 @@ package cache
 //@ func (*cacheHandler).remove
 //@   props C15
 //@   requires [wired] h != nil && r != nil && mdOf(r) != nil
+// a resource leaving the cache releases the waiter of its ID, whatever its phase
+//@   ensures [waiter-released-on-removal] acq(in(mdOf(r).id, h.teardownWaiters)) ==>
+//@     closed(acq(h.teardownWaiters[mdOf(r).id])) && !in(mdOf(r).id, h.teardownWaiters)
 //@   at BinarySearchFunc #1
 //@     assume_result [binary-search] searchResult(h.resources, mdOf(r).id, result0, result1)
 //@ func (*cacheHandler).remove$1
@@ -115,6 +124,9 @@ package cache
 //@ func (*cacheHandler).contextWithTeardown$1
 //@   props C15
 //@   requires r != nil
+// the goroutine behind a teardown-bound context only waits and cancels: the waiter channel is shared
+// by every context bound to the same resource, so it must leave the registry alone
 //@ func (*cacheHandler).contextWithTeardown$2
 //@   props C15
 //@   requires ctx != nil && cancel != nil
+//@   writes_nothing
